@@ -73,10 +73,15 @@ class Problem:
             self.D_true = D
             self.calls = 0
 
+            def _ids(a):
+                if hasattr(a, 'xyz'):       # md.Trajectory whose x coordinate of atom 0 is the frame id
+                    return np.rint(np.asarray(a.xyz)[:, 0, 0]).astype(int)
+                return np.asarray(a).reshape(len(a), -1)[:, 0].astype(int)
+
             def metric(X_, y, _D=D.copy()):
                 self.calls += 1
-                ids = np.asarray(X_)[:, 0].astype(int)
-                return _D[ids, int(np.asarray(y)[0])]
+                yi = int(np.rint(np.asarray(y.xyz).reshape(-1)[0])) if hasattr(y, 'xyz') else int(np.asarray(y).reshape(-1)[0])
+                return _D[_ids(X_), yi]
             self.metric = metric
             self.tol = 0.0
             self.exact = True
@@ -302,6 +307,22 @@ def run_real(P, case, n_iters=None, record=None):
                 a, d = util.assign_to_nearest_center(X, cs, P.metric_fn())
                 out['ok'] = {'inds': list(case['centers']), 'assign': np.asarray(a), 'dist': np.asarray(d, dtype=float),
                              'centers': cs}
+            elif kind == 'assign_xyz':
+                import mdtraj as md
+                cs, F = case['centers'], case['frames']
+                xyz = np.zeros((len(cs), 1, 3), dtype=np.float32)
+                xyz[:, 0, 0] = cs
+                C = md.Trajectory(xyz, None)
+                if case.get('traj_form') == 'md':
+                    fx = np.zeros((len(F), 1, 3), dtype=np.float32)
+                    fx[:, 0, 0] = F
+                    T = md.Trajectory(fx, None)
+                else:
+                    T = X[F].copy()
+                    watched['trajectory'] = T
+                before = {k: _snap(v) for k, v in watched.items()}
+                a, d = util.assign_to_nearest_center(T, C, P.metric_fn())
+                out['sub'] = {'assign': np.asarray(a), 'dist': np.asarray(d, dtype=float)}
             elif kind in ('kcenters', 'KCenters.fit'):
                 before = {k: _snap(v) for k, v in watched.items()}
                 if kind == 'kcenters':
@@ -397,6 +418,8 @@ def model_request(P, case, oracle=None, initial=None, area='C01'):
     rq = {'n': P.n, 'D': P.D_json()}
     if kind == 'assign':
         rq.update(op=area + '.assign', centers=list(case['centers']), branch='loop')
+    elif kind == 'assign_xyz':
+        rq.update(op=area + '.assign', centers=list(case['centers']), branch='argmin')
     elif kind in ('kcenters', 'KCenters.fit'):
         rq.update(op=area + '.kcenters', n_clusters=case.get('n_clusters'),
                   cutoff=_rat(case['cutoff']) if case.get('cutoff') is not None else 0,
@@ -572,6 +595,15 @@ def gen_case(rng, kind=None, nmax=14):
     c['kind'] = kind
     P = Problem(c)
     n = P.n
+    if kind == 'assign_xyz':
+        n = int(rng.integers(2, nmax + 1))
+        D, style = gen_table(rng, n, style=str(rng.choice(['line', 'grid', 'sym', 'ties'])))
+        c = {'metric': 'table', 'D': D, 'dtype': 'int64', 'style': style, 'kind': kind}
+        k = int(rng.integers(2, n + 1))
+        c['centers'] = [int(i) for i in rng.choice(n, size=k, replace=False)]
+        c['frames'] = [int(i) for i in rng.choice(n, size=int(rng.integers(1, k)), replace=False)]
+        c['traj_form'] = str(rng.choice(['array', 'md']))
+        return c
     if kind == 'assign':
         k = int(rng.integers(1, n + 1))
         c['centers'] = [int(i) for i in rng.choice(n, size=k, replace=False)]
@@ -612,6 +644,11 @@ def gen_case(rng, kind=None, nmax=14):
         else:
             c['warm'] = str(rng.choice(['cold', 'inds', 'ad', 'all']))
             if c['warm'] == 'cold':
+                # the cold start redraws all k indices until they are distinct: keep the expected number of
+                # redraws small (k = n only for tiny n)
+                if n > 7 and k > n // 2:
+                    k = max(1, n // 2)
+                    st = consistent_state(rng, P, k)
                 c['n_clusters'] = k
             else:
                 c['state'] = st
@@ -691,6 +728,37 @@ def phase1(ctx, case, area='C01'):
         tags.append('k=1' if k_guess == 1 else 'k=n' if k_guess == P.n else 'k>n' if k_guess > P.n else '1<k<n')
     ctx.case(case, nontrivial=('ok' in out and k_guess >= 2 and P.n > k_guess) or kind == 'pam_update', tags=tags)
 
+    if kind == 'assign_xyz':
+        # per-frame argmin branch (more centers than frames, centers are an md.Trajectory)
+        if 'error' in out:
+            _fail(ctx, 'assign_to_nearest_center raised %s (%s)' % (out['error'], out.get('error_text')), case)
+            rec['bad'] = True
+            return rec
+        cs, F, sub = case['centers'], case['frames'], out['sub']
+        msg = None
+        if sub['assign'].shape != (len(F),) or sub['dist'].shape != (len(F),):
+            msg = 'one label/distance per frame expected'
+        for i, f in enumerate(F):
+            if msg:
+                break
+            a = int(sub['assign'][i])
+            if not (0 <= a < len(cs)):
+                msg = 'label outside [0, %d)' % len(cs)
+            elif sub['dist'][i] != P.D_true[f, cs[a]]:
+                msg = 'frame %d: distance %r != metric distance to its center' % (f, float(sub['dist'][i]))
+            elif any(P.D_true[f, c] < sub['dist'][i] for c in cs):
+                msg = 'frame %d: another center is strictly closer' % f
+        if msg is None and out.get('modified'):
+            msg = 'input(s) modified by the call: %s' % ', '.join(out['modified'])
+        if msg:
+            _fail(ctx, 'assign_to_nearest_center (argmin branch): %s' % msg, case)
+            rec['bad'] = True
+            return rec
+        ctx.tag('assign-argmin-branch')
+        if USE_MODEL:
+            rec['rq'] = model_request(P, case, area=area)
+        return rec
+
     # ---- the property's predicate on the real output
     if 'error' in out:
         if kind in ('kmedoids', 'KMedoids.fit') and T == 0 and out['error'] == 'UnboundLocalError':
@@ -768,6 +836,18 @@ def check_cases(ctx, cases, area='C01', extra=None):
 
 def compare_with_model(ctx, P, case, out, m, area='C01'):
     kind = case['kind']
+    if kind == 'assign_xyz':
+        if 'ok' not in m:
+            ctx.disagreement('Model.Cluster.assignArgmin gives %s' % m, dict(case))
+            return
+        ms = model_state(m['ok']['final'])
+        F, sub = case['frames'], out['sub']
+        if [ms['assign'][f] for f in F] != [int(x) for x in sub['assign']] or \
+                [ms['dist'][f] for f in F] != [Fraction(float(x)) for x in sub['dist']]:
+            ctx.disagreement('Model.Cluster.assignArgmin vs assign_to_nearest_center (argmin branch)', dict(case))
+        else:
+            ctx.tag('model-agrees')
+        return
     if 'error' in m:
         if 'error' in out and ERRMAP.get(out['error']) == m['error']:
             ctx.tag('error-branch-agrees')
@@ -856,24 +936,25 @@ def run(ctx):
 def _run(ctx):
     rng = ctx.rng
     cases = []
-    for kind in ENTRY_KINDS:          # every entry point at least a few times
-        for _ in range(ctx.n(6, 40)):
+    for kind in ENTRY_KINDS + ('assign_xyz',):          # every entry point at least a few times
+        for _ in range(ctx.n(12, 60)):
             cases.append(gen_case(rng, kind=kind))
-    for _ in range(ctx.n(260, 4200)):
+    for _ in range(ctx.n(1100, 16000)):
         cases.append(gen_case(rng))
-    for _ in range(ctx.n(12, 300)):   # larger
+    for _ in range(ctx.n(40, 800)):   # larger
         cases.append(gen_case(rng, nmax=40))
     cases += list(tiny_tables(ctx, 3))
-    cases += list(tiny_tables(ctx, 4, limit=ctx.n(60, 100000)))
+    cases += list(tiny_tables(ctx, 4, limit=ctx.n(150, 100000)))
     if ctx.thorough:
         cases += list(tiny_tables(ctx, 5, values=(1, 2), limit=4000))
     check_cases(ctx, cases)
     need = ['pam-branch-dn', 'pam-branch-other', 'pam-branch-this', 'pam-accept', 'pam-reject',
-            'pam-all-three-branches', 'model-agrees', 'sweep-by-sweep-agrees']
+            'pam-all-three-branches', 'model-agrees', 'sweep-by-sweep-agrees', 'assign-argmin-branch']
     ctx.note('under_covered', [t for t in need if not ctx.tags.get(t)])
 
 
 def replay(ctx, data):
+    data = data.get('case', data)
     case = {k: v for k, v in data.items()}
     with one_thread():
         check_cases(ctx, [case])
